@@ -58,6 +58,7 @@ const (
 	mErr    vmode = iota // func(...) error            -> bool (true = nil)
 	mValErr              // func(...) (T, error)       -> option T / bool when T is not an integer
 	mPure                // func(...) T                -> T
+	mValOk               // func(...) (int, bool)      -> option Z
 )
 
 type vfunc struct {
@@ -695,6 +696,9 @@ func (c *vctx) nonNilError(e ast.Expr) bool {
 		if fn != nil && !inModule(fn) {
 			return true // fmt.Errorf, errors.New, oops.Errorf: never nil (trusted)
 		}
+		if fn != nil && inModule(fn) && c.t.alwaysErrors(fn, 0) {
+			return true // an in-module helper every return of which builds a fresh error
+		}
 		// builder chains: oops.Code(..).With(..).Errorf(..)
 		if se, ok := x.Fun.(*ast.SelectorExpr); ok {
 			if sel, ok := c.info.Selections[se]; ok {
@@ -745,6 +749,19 @@ func (c *vctx) ret(r *ast.ReturnStmt) string {
 			return c.reject()
 		}
 		return c.problem(r.Pos(), "returned error is neither nil nor a fresh error")
+	case mValOk:
+		if len(r.Results) != 2 {
+			return c.problem(r.Pos(), "return arity")
+		}
+		if id, ok := r.Results[1].(*ast.Ident); ok {
+			if cv := c.info.Types[id].Value; cv != nil {
+				if cv.String() == "true" {
+					return "(Some " + c.expr(r.Results[0]) + ")"
+				}
+				return "None"
+			}
+		}
+		return "(if " + c.expr(r.Results[1]) + " then Some " + c.expr(r.Results[0]) + " else None)"
 	}
 	return c.problem(r.Pos(), "return")
 }
@@ -764,6 +781,63 @@ func (c *vctx) guardCall(call *ast.CallExpr) (string, bool) {
 		}
 	}
 	return "", false
+}
+
+// alwaysErrors: fn returns exactly one result of type error and every return statement in its body
+// returns a freshly built error (a call into another module's error constructors, a builder chain,
+// or another such helper)
+func (t *vtrans) alwaysErrors(fn *types.Func, depth int) bool {
+	if depth > 4 {
+		return false
+	}
+	vf, ok := t.byObj[fn]
+	if !ok {
+		return false
+	}
+	sig := fn.Type().(*types.Signature)
+	if sig.Results().Len() != 1 || !isErrorType(sig.Results().At(0).Type()) {
+		return false
+	}
+	info := vf.pkg.TypesInfo
+	all, any := true, false
+	ast.Inspect(vf.decl.Body, func(n ast.Node) bool {
+		switch x := n.(type) {
+		case *ast.FuncLit:
+			return false
+		case *ast.ReturnStmt:
+			any = true
+			if len(x.Results) != 1 {
+				all = false
+				return true
+			}
+			call, ok := x.Results[0].(*ast.CallExpr)
+			if !ok {
+				all = false
+				return true
+			}
+			var callee *types.Func
+			switch f := call.Fun.(type) {
+			case *ast.Ident:
+				callee, _ = info.Uses[f].(*types.Func)
+			case *ast.SelectorExpr:
+				if sel, ok := info.Selections[f]; ok {
+					callee, _ = sel.Obj().(*types.Func)
+				} else {
+					callee, _ = info.Uses[f.Sel].(*types.Func)
+				}
+			}
+			switch {
+			case callee == nil:
+				all = false
+			case !inModule(callee):
+				// external error constructor / builder chain
+			case !t.alwaysErrors(callee, depth+1):
+				all = false
+			}
+		}
+		return true
+	})
+	return all && any
 }
 
 func isLogCall(e ast.Expr) bool {
@@ -982,6 +1056,58 @@ func (c *vctx) ifStmt(x *ast.IfStmt, after []ast.Stmt, rest string) string {
 				}
 			}
 		}
+		// if v, ok := f(..); ok { ... }   /   if v, ok := f(..); !ok { ... }
+		if len(as.Lhs) == 2 && len(as.Rhs) == 1 {
+			if call, isCall := as.Rhs[0].(*ast.CallExpr); isCall {
+				if s, ok := c.apply(call, mValOk); ok {
+					okId, isId := as.Lhs[1].(*ast.Ident)
+					if !isId {
+						return c.problem(x.Pos(), "if-init form")
+					}
+					okObj := c.info.Defs[okId]
+					pos, neg := false, false
+					switch cnd := x.Cond.(type) {
+					case *ast.Ident:
+						pos = c.info.Uses[cnd] == okObj
+					case *ast.UnaryExpr:
+						if id, isId := cnd.X.(*ast.Ident); isId && cnd.Op == token.NOT {
+							neg = c.info.Uses[id] == okObj
+						}
+					}
+					if !pos && !neg {
+						return c.problem(x.Pos(), "if-init form")
+					}
+					vn := "_"
+					if id, isId := as.Lhs[0].(*ast.Ident); isId && id.Name != "_" {
+						vn = c.define(as.Lhs[0])
+					}
+					branch := func(list []ast.Stmt) string {
+						if terminates(list) {
+							return c.stmts(list, "")
+						}
+						return c.stmts(append(append([]ast.Stmt(nil), list...), after...), rest)
+					}
+					thenS := branch(x.Body.List)
+					var elseS string
+					switch e := x.Else.(type) {
+					case nil:
+						elseS = cont()
+					case *ast.BlockStmt:
+						elseS = branch(e.List)
+					default:
+						return c.problem(x.Pos(), "if-init form")
+					}
+					someS, noneS := thenS, elseS
+					if neg {
+						someS, noneS = elseS, thenS
+					}
+					if vn != "_" {
+						noneS = "(let " + vn + " := 0 in " + noneS + ")"
+					}
+					return "match " + s + " with\n  | Some " + vn + " => " + someS + "\n  | None => " + noneS + "\n  end"
+				}
+			}
+		}
 		return c.problem(x.Pos(), "if-init form")
 	}
 	return c.plainIf(x, after, rest)
@@ -1084,8 +1210,11 @@ func (c *vctx) rangeStmt(x *ast.RangeStmt, after []ast.Stmt, rest string) string
 }
 
 func (c *vctx) switchStmt(x *ast.SwitchStmt, after []ast.Stmt, rest string) string {
-	if x.Init != nil || x.Tag == nil {
+	if x.Init != nil {
 		return c.problem(x.Pos(), "switch form")
+	}
+	if x.Tag == nil {
+		return c.taglessSwitch(x, after, rest)
 	}
 	tag := c.expr(x.Tag)
 	var def *ast.CaseClause
@@ -1133,6 +1262,49 @@ func (c *vctx) switchStmt(x *ast.SwitchStmt, after []ast.Stmt, rest string) stri
 	return out
 }
 
+// switch { case cond: ...; default: ... } as an if / else-if chain
+func (c *vctx) taglessSwitch(x *ast.SwitchStmt, after []ast.Stmt, rest string) string {
+	var def *ast.CaseClause
+	var clauses []*ast.CaseClause
+	for _, cl := range x.Body.List {
+		cc := cl.(*ast.CaseClause)
+		for _, st := range cc.Body {
+			if br, ok := st.(*ast.BranchStmt); ok && br.Tok == token.FALLTHROUGH {
+				return c.problem(st.Pos(), "fallthrough")
+			}
+		}
+		if cc.List == nil {
+			def = cc
+			continue
+		}
+		clauses = append(clauses, cc)
+	}
+	armCode := func(body []ast.Stmt) string {
+		if terminates(body) {
+			return c.stmts(body, "")
+		}
+		return c.stmts(append(append([]ast.Stmt(nil), body...), after...), rest)
+	}
+	var out string
+	if def != nil {
+		out = armCode(def.Body)
+	} else {
+		out = c.stmts(after, rest)
+	}
+	for i := len(clauses) - 1; i >= 0; i-- {
+		var conds []string
+		for _, e := range clauses[i].List {
+			conds = append(conds, c.expr(e))
+		}
+		cond := conds[0]
+		if len(conds) > 1 {
+			cond = "(" + strings.Join(conds, " || ") + ")"
+		}
+		out = "(if " + cond + " then " + armCode(clauses[i].Body) + "\n  else " + out + ")"
+	}
+	return out
+}
+
 // ---- functions ----
 
 func funcKey(fn *types.Func) string {
@@ -1167,6 +1339,8 @@ func (t *vtrans) translate(fn *types.Func) *vfunc {
 		} else {
 			vf.retType = "bool"
 		}
+	case res.Len() == 2 && isInteger(res.At(0).Type()) && isBool(res.At(1).Type()):
+		vf.mode, vf.valIsZ, vf.retType = mValOk, true, "(option Z)"
 	case res.Len() == 1 && (isInteger(res.At(0).Type()) || isBool(res.At(0).Type())):
 		vf.mode = mPure
 		if isBool(res.At(0).Type()) {
